@@ -4,6 +4,7 @@ import (
 	"bytes"
 	"crypto/tls"
 	"fmt"
+	"io"
 	"math/rand"
 	"net"
 	"runtime/debug"
@@ -12,6 +13,8 @@ import (
 	"sync/atomic"
 	"syscall"
 	"time"
+
+	"github.com/hashicorp/go-hclog"
 
 	"github.com/jimlambrt/gldap"
 )
@@ -33,10 +36,10 @@ func (c07Stream) Name() string               { return "c07" }
 func (c07Stream) CaseTimeout() time.Duration { return 60 * time.Second }
 func (c07Stream) NoModel() bool              { return true }
 func (c07Stream) Rule() string {
-	return "one fault per scenario - a panicking handler for each concurrently dispatched operation (bind, search, modify, add, delete, extended), for StartTLS, for the unbind route and for the default route, 512 handlers on eight connections panicking in the same instant, and for a bind on a TLS listener that requests but does not verify client certificates; a connection reset; a truncated frame followed by silence; a client that sends searches with large results and never reads, also one whose requests are served by the default route; descriptor exhaustion at accept (RLIMIT_NOFILE lowered in the worker); 48 connections whose read loops end on a malformed frame while a slow request of theirs is still being handled, with 48 new connections arriving at once; a client of a TLS listener that sends a truncated first record and stalls; a frame of 2^20 nested indefinite-length sequence headers (goroutine stack limit lowered to 32 MiB in the worker) - injected while two bystander connections issue requests continuously; oracle: the worker process survives, the bystanders keep receiving correct responses during and after the fault, and a new connection is accepted and served afterwards; non-trivial = every scenario, distinct by fault"
+	return "one fault per scenario - a panicking handler for each concurrently dispatched operation (bind, search, modify, add, delete, extended), for StartTLS, for the unbind route and for the default route, requests of every operation nothing is registered for (refused by gldap itself, with a logger at trace level), 512 handlers on eight connections panicking in the same instant, and for a bind on a TLS listener that requests but does not verify client certificates; a connection reset; a truncated frame followed by silence; a client that sends searches with large results and never reads, also one whose requests are served by the default route; descriptor exhaustion at accept (RLIMIT_NOFILE lowered in the worker); 48 connections whose read loops end on a malformed frame while a slow request of theirs is still being handled, with 48 new connections arriving at once; a client of a TLS listener that sends a truncated first record and stalls; a frame of 2^20 nested indefinite-length sequence headers (goroutine stack limit lowered to 32 MiB in the worker) - injected while two bystander connections issue requests continuously; oracle: the worker process survives, the bystanders keep receiving correct responses during and after the fault, and a new connection is accepted and served afterwards; non-trivial = every scenario, distinct by fault"
 }
 
-var c07Faults = []string{"panic-storm", "panic-bind", "panic-search", "panic-modify", "panic-add", "panic-delete", "panic-extended", "panic-starttls", "panic-unbind", "panic-default", "rst", "truncated", "notreading", "notreading-default", "panic-anycert", "fdexhaust", "deepnest", "latewriter", "tlsstall"}
+var c07Faults = []string{"unrouted", "panic-storm", "panic-bind", "panic-search", "panic-modify", "panic-add", "panic-delete", "panic-extended", "panic-starttls", "panic-unbind", "panic-default", "rst", "truncated", "notreading", "notreading-default", "panic-anycert", "fdexhaust", "deepnest", "latewriter", "tlsstall"}
 
 func (c07Stream) Generate(rng *rand.Rand, n int, thorough bool) []Case {
 	var cs []Case
@@ -112,10 +115,12 @@ func (c07Stream) Impl(c Case) string {
 	mux, _ := gldap.NewMux()
 	_ = mux.Bind(h)
 	_ = mux.Search(h)
-	_ = mux.Modify(h)
-	_ = mux.Add(h)
-	_ = mux.Delete(h)
-	_ = mux.ExtendedOperation(h, gldap.ExtendedOperationWhoAmI)
+	if fault != "unrouted" {
+		_ = mux.Modify(h)
+		_ = mux.Add(h)
+		_ = mux.Delete(h)
+		_ = mux.ExtendedOperation(h, gldap.ExtendedOperationWhoAmI)
+	}
 	_ = mux.ExtendedOperation(func(w *gldap.ResponseWriter, r *gldap.Request) {
 		panic("starttls handler panic injected by the harness")
 	}, gldap.ExtendedOperationStartTLS)
@@ -124,7 +129,13 @@ func (c07Stream) Impl(c Case) string {
 			panic("unbind handler panic injected by the harness")
 		}
 	})
-	_ = mux.DefaultRoute(func(w *gldap.ResponseWriter, r *gldap.Request) {
+	dflt := mux.DefaultRoute
+	if fault == "unrouted" {
+		// no default route either: modify, add, delete and extended requests get gldap's own refusal, which it also
+		// reports in its log - at a level somebody listens to
+		dflt = func(gldap.HandlerFunc, ...gldap.Option) error { return nil }
+	}
+	_ = dflt(func(w *gldap.ResponseWriter, r *gldap.Request) {
 		if r.VerifMessage().GetID() == 666 {
 			panic("default-route handler panic injected by the harness")
 		}
@@ -155,7 +166,12 @@ func (c07Stream) Impl(c Case) string {
 		cliCfg.ServerName = "localhost"
 		victimCfg = cliCfg
 	}
-	sut, err := startServer(mux, srvCfg, nil)
+	var sopts []gldap.Option
+	if fault == "unrouted" {
+		debug.SetMaxStack(32 << 20) // (a runaway recursion ends quickly)
+		sopts = append(sopts, gldap.WithLogger(hclog.New(&hclog.LoggerOptions{Level: hclog.Trace, Output: io.Discard})))
+	}
+	sut, err := startServer(mux, srvCfg, nil, sopts...)
 	if err != nil {
 		return "harness-error start: " + err.Error()
 	}
@@ -252,6 +268,14 @@ func (c07Stream) Impl(c Case) string {
 			frame = nd.Ser()
 		}
 		_ = victim.send(frame)
+	case fault == "unrouted":
+		for j, k := range []string{"modify", "add", "delete", "extended", "search"} {
+			_ = victim.send(opFrame(k, int64(900+j)))
+			if f, err := victim.readFrame(3 * time.Second); err != nil || !strings.HasPrefix(strictView(f), fmt.Sprintf("result id=%d ", 900+j)) {
+				bad.Store(fmt.Sprintf("a %s request nothing is registered for was not answered: %v", k, err))
+				break
+			}
+		}
 	case fault == "rst":
 		_ = victim.send(opFrame("bind", 1))
 		if tc, ok := victim.c.(*net.TCPConn); ok {
